@@ -246,7 +246,7 @@ fn do_step(cx: &mut Ctx, step: &Value, depth: u32) -> bool {
     spawn_peers(peers);
     log_expect(mid, &expect);
     let hook_at = step["at"].as_u64().unwrap_or(0) as usize;
-    let chan = if depth > 0 { "inner" } else if kind == "dead" { "dead" } else { "outer" };
+    let chan = if kind == "dead" { "dead" } else if depth > 0 { "inner" } else { "outer" };
     // the borrow of cx inside the nested closure needs a raw pointer (single-threaded use)
     let cxp = cx as *mut Ctx;
     let target: &IpcSender<W<'static>> = unsafe {
@@ -311,7 +311,7 @@ impl Scenario for C14S {
             match r.below(10) {
                 0..=2 => json!({"kind": "plain", "items": it}),
                 3..=5 => json!({"kind": "fail", "items": it, "at": r.below(n + 1)}),
-                6 if depth == 0 => json!({"kind": "dead", "items": it}),
+                6 => json!({"kind": "dead", "items": it}),
                 _ if depth < 3 => json!({"kind": "nested", "items": it, "at": r.below(n + 1), "propagate": r.chance(1, 3), "inner": step(r, depth + 1)}),
                 _ => json!({"kind": "plain", "items": it}),
             }
